@@ -76,4 +76,94 @@ mod tests {
             _ => panic!("unexpected message"),
         }
     }
+
+    fn counts(out: &[(OutMessageMeta, OutMessage)]) -> (usize, usize) {
+        match &out.last().unwrap().1 {
+            OutMessage::AnnounceResponse(r) => (r.complete, r.incomplete),
+            _ => panic!("last message is not an announce reply"),
+        }
+    }
+
+    /// C08: seeder -> leecher transitions keep the cached seeder count equal to the stored seeders,
+    /// whatever form `left` takes (absent, positive).
+    #[test]
+    fn c08_seeder_to_leecher_counts() {
+        let config = Config::default();
+        let mut rng = SmallRng::seed_from_u64(1);
+        let start = ServerStartInstant::new();
+        for left in [None, Some(5usize)] {
+            let mut maps = TorrentMaps::new(0);
+            let mut out = Vec::new();
+            let (h, a, b) = ([7u8; 20], [1u8; 20], [2u8; 20]);
+            maps.handle_announce_request(&config, &mut rng, &mut out, start, meta(0, 1), req(h, a, Some(AnnounceEvent::Started), Some(0)));
+            maps.handle_announce_request(&config, &mut rng, &mut out, start, meta(0, 2), req(h, b, Some(AnnounceEvent::Started), Some(9)));
+            assert_eq!(counts(&out), (1, 1));
+            out.clear();
+            maps.handle_announce_request(&config, &mut rng, &mut out, start, meta(0, 1), req(h, a, None, left));
+            assert_eq!(counts(&out), (0, 2), "cached seeder count != reference after seeder -> leecher with left = {:?}", left);
+            out.clear();
+            maps.handle_announce_request(&config, &mut rng, &mut out, start, meta(0, 1), req(h, a, None, Some(0)));
+            assert_eq!(counts(&out), (1, 1), "cached seeder count != reference after leecher -> seeder");
+        }
+    }
+
+    /// C10: every re-announce sets a fresh deadline, also seeder -> seeder and leecher -> leecher.
+    #[test]
+    fn c10_reannounce_refreshes_deadline() {
+        use aquatic_common::access_list::AccessListArcSwap;
+        use std::sync::Arc;
+        use std::time::Duration;
+        for left in [Some(0usize), Some(3usize)] {
+            let mut config = Config::default();
+            config.cleaning.max_peer_age = 3;
+            let mut rng = SmallRng::seed_from_u64(1);
+            let start = ServerStartInstant::new();
+            let mut maps = TorrentMaps::new(0);
+            let mut out = Vec::new();
+            let (h, a) = ([7u8; 20], [1u8; 20]);
+            maps.handle_announce_request(&config, &mut rng, &mut out, start, meta(0, 1), req(h, a, Some(AnnounceEvent::Started), left));
+            std::thread::sleep(Duration::from_millis(2100));
+            maps.handle_announce_request(&config, &mut rng, &mut out, start, meta(0, 1), req(h, a, None, left)); // fresh deadline >= 5
+            std::thread::sleep(Duration::from_millis(1500)); // clock 3..4: past the first deadline, before the second
+            let access_list: Arc<AccessListArcSwap> = Default::default();
+            maps.clean(&config, &access_list, start);
+            out.clear();
+            maps.handle_announce_request(&config, &mut rng, &mut out, start, meta(0, 2), req(h, [2u8; 20], None, Some(1)));
+            let (c, i) = counts(&out);
+            assert_eq!(c + i, 2, "announce must set deadline = now + max_peer_age (re-announced peer with left {:?} expired early)", left);
+        }
+    }
+
+    /// C09: a forwarded answer is addressed to the OFFERING peer's (socket worker, connection).
+    #[test]
+    fn c09_answer_addressed_to_offerer() {
+        use aquatic_ws_protocol::incoming::AnnounceRequestOffer;
+        let config = Config::default();
+        let mut rng = SmallRng::seed_from_u64(1);
+        let start = ServerStartInstant::new();
+        let mut maps = TorrentMaps::new(0);
+        let mut out = Vec::new();
+        let (h, offerer, answerer) = ([7u8; 20], [1u8; 20], [2u8; 20]);
+        // answerer is stored first, on worker 1 slot 4; offerer on worker 0 slot 9
+        maps.handle_announce_request(&config, &mut rng, &mut out, start, meta(1, 4), req(h, answerer, Some(AnnounceEvent::Started), Some(1)));
+        let mut r = req(h, offerer, Some(AnnounceEvent::Started), Some(1));
+        let oid = OfferId([5u8; 20]);
+        r.offers = Some(vec![AnnounceRequestOffer { offer: RtcOffer { t: RtcOfferType::Offer, sdp: "o".into() }, offer_id: oid }]);
+        out.clear();
+        maps.handle_announce_request(&config, &mut rng, &mut out, start, meta(0, 9), r);
+        assert!(matches!(&out[0].1, OutMessage::OfferOutMessage(_)), "offer forwarded");
+        assert_eq!((out[0].0.out_message_consumer_id.0, out[0].0.connection_id), (1, meta(1, 4).connection_id), "offer must go to the receiving peer's own connection");
+        let mut a = req(h, answerer, None, Some(1));
+        a.answer = Some(RtcAnswer { t: RtcAnswerType::Answer, sdp: "a".into() });
+        a.answer_to_peer_id = Some(PeerId(offerer));
+        a.answer_offer_id = Some(oid);
+        out.clear();
+        maps.handle_announce_request(&config, &mut rng, &mut out, start, meta(1, 4), a.clone());
+        assert!(matches!(&out[0].1, OutMessage::AnswerOutMessage(_)), "answer forwarded");
+        assert_eq!((out[0].0.out_message_consumer_id.0, out[0].0.connection_id), (0, meta(0, 9).connection_id), "answer must go to the offering peer's connection only");
+        // the same answer a second time finds no pending offer
+        out.clear();
+        maps.handle_announce_request(&config, &mut rng, &mut out, start, meta(1, 4), a);
+        assert!(matches!(&out[0].1, OutMessage::ErrorResponse(_)), "answered offer still pending (could be answered twice)");
+    }
 }
